@@ -450,6 +450,58 @@ Definition sp_topic_scope (e : entity) : list bytes :=
   ++ flat_map (fun s => [sp_summary_name e s ++ bs "Message"; to_camel (sp_summary_name e s) ++ bs "Topic"])
               (e_summaries e).
 
+(* ---- "all named from the entity name": the exact names ---------------------------------------------------
+   the Status enum holds exactly the documented values, numbered 0, 1, .. in that order; the query service's
+   six messages, each command service and the messages of its methods, the publish topic with its method and
+   message, and one upsert topic per summary carry the names derived from the entity name (and, for commands /
+   summaries, from the name the declaration gives them) *)
+Definition spec_names (e : entity) (cs : list component) : Prop :=
+  (exists vs, has_enum cs (sp_name e "Status") vs
+      /\ map fst vs = sp_enum_values_n (sp_status_prefix e) (e_status e) (sp_first_number e)
+      /\ map snd vs = map N.of_nat (seq 0 (length vs)))
+  /\ (forall s g l v, In s (svcs_in cs 1) -> is_query_svc s = true -> sv_methods s = [g; l; v] ->
+        map mt_in [g; l; v] = map (fun n => sp_query_prefix e ++ bs n) ["GetRequest"; "ListRequest"; "EventsRequest"]%string
+        /\ map mt_out [g; l; v] = map (fun n => sp_query_prefix e ++ bs n) ["GetResponse"; "ListResponse"; "EventsResponse"]%string)
+  /\ Forall2 (fun c s => sv_name s = command_service e c
+                /\ Forall2 (fun m mt => mt_in mt = md_name m ++ bs "Request"
+                               /\ mt_out mt = match md_response m with
+                                              | Some _ => md_name m ++ bs "Response"
+                                              | None => bs ".google.api.HttpBody" end)
+                            (c_methods c) (sv_methods s))
+             (e_commands e) (filter is_command_svc (svcs_in cs 1))
+  /\ (forall p, In p (svcs_in cs 2) -> topic_role p = 4 ->
+        sv_name p = to_camel (sp_camel e ++ bs "Publish") ++ bs "Topic"
+        /\ map mt_name (sv_methods p) = [sp_camel e ++ bs "Event"]
+        /\ map mt_in (sv_methods p) = [sp_camel e ++ bs "EventMessage"])
+  /\ Forall2 (fun sm s => sv_name s = to_camel (sp_summary_name e sm) ++ bs "Topic"
+                /\ map mt_name (sv_methods s) = [sp_summary_name e sm]
+                /\ map mt_in (sv_methods s) = [sp_summary_name e sm ++ bs "Message"])
+             (e_summaries e) (filter (fun s => topic_role s =? 3) (svcs_in cs 2)).
+
+(* ---- "optional query settings (events in get, default status filter)" ------------------------------------
+   the responses of the query service: Get returns the entity's State under the entity's own name - and the
+   events next to it exactly when eventsInGet is set -, List an array of State and the page, Events an array of
+   Event and the page; the status property of State is filterable and its default filters are the enum values
+   of the statuses the declaration lists, in order *)
+Definition sp_events_in_get (e : entity) : bool :=
+  match e_query e with Some q => q_events_in_get q | None => false end.
+Definition sp_default_status (e : entity) : list bytes :=
+  match e_query e with Some q => q_default_status q | None => [] end.
+Definition field_view (f : ofield) : bytes * otype * bool := (f_json f, f_type f, f_repeated f).
+Definition spec_query_settings (e : entity) (cs : list component) : Prop :=
+  let own := to_lower_camel (to_snake (e_name e)) in
+  let state := TObject [] (sp_name e "State") in
+  let event := TObject [] (sp_name e "Event") in
+  let page := (bs "page", TObject (bs "j5.list.v1") (bs "PageResponse"), false) in
+  (forall s g l v, In s (svcs_in cs 1) -> is_query_svc s = true -> sv_methods s = [g; l; v] ->
+     exists mg ml mv, has_msg cs 1 mg /\ m_name mg = mt_out g /\ has_msg cs 1 ml /\ m_name ml = mt_out l
+       /\ has_msg cs 1 mv /\ m_name mv = mt_out v
+       /\ map field_view (m_fields mg) = (own, state, false) :: (if sp_events_in_get e then [(bs "events", event, true)] else [])
+       /\ map field_view (m_fields ml) = [(own, state, true); page]
+       /\ map field_view (m_fields mv) = [(bs "events", event, true); page])
+  /\ (exists m f, has_msg cs 0 m /\ m_name m = sp_name e "State" /\ In f (m_fields m) /\ f_json f = bs "status"
+        /\ f_filter f = Some (map (sp_value_name (sp_status_prefix e)) (sp_default_status e))).
+
 (* ---- the names of the three packages, split by who chose them ----------------------------------------------
    GENERATED: the names the expansion derives from the entity name and the statuses (README: the six
    schemas, the status values, the query service with its six messages, the publish topic and its message).
@@ -485,6 +537,10 @@ Definition user_names_ok (e : entity) : bool :=
   nodup_bytes (sp_main_user e) && disjoint_bytes (sp_main_user e) (sp_main_generated e)
   && nodup_bytes (sp_service_user e) && disjoint_bytes (sp_service_user e) (sp_service_generated e)
   && nodup_bytes (sp_topic_user e) && disjoint_bytes (sp_topic_user e) (sp_topic_generated e).
+
+(* THE SPECIFICATION, all clauses *)
+Definition C17_spec_all (e : entity) (cs : list component) : Prop :=
+  C17_spec e cs /\ spec_names e cs /\ spec_query_settings e cs.
 
 Definition in_quantifier (e : entity) : bool :=
   (* the options of one enum - the statuses, the options of an enum of the block or of an inline enum -
